@@ -257,6 +257,12 @@ func flowsFrom(v ssa.Value, pred func(ssa.Value) bool) bool {
 			return walk(x.X)
 		case *ssa.Field:
 			return walk(x.X)
+		case *ssa.IndexAddr:
+			return walk(x.X)
+		case *ssa.Index:
+			return walk(x.X)
+		case *ssa.Slice:
+			return walk(x.X)
 		}
 		return false
 	}
